@@ -170,7 +170,7 @@ def write_replay(pid, v, extra=None):
     payload = {"property": pid, "kind": v.kind, "what": v.what, "detail": v.detail}
     if v.case is not None:
         payload["case"] = v.case.to_json()
-        if v.case.obs is not None:
+        if getattr(v.case, "obs", None) is not None:
             payload["implementation_observed"] = [str(o) for o in v.case.obs]
     if extra:
         payload.update(extra)
